@@ -120,7 +120,23 @@ def run(ctx) -> None:
             arms.append(i)
     arms = [a for a in arms if any(isinstance(c, ast.Call) and call_name(c) in (VALIDATE, UPDATE)
                                     for st in a.body for c in ast.walk(st))]
-    ctx.require(len(arms) >= 2, "multislice_and_detect: entrance-plane and exit-plane arms not found")
+    # every index computation / measurement update of the series must happen per configuration
+    in_loop = {id(n) for n in ast.walk(cloop)}
+    after_loop = {id(n) for st in mad.node.body[mad.node.body.index(cloop) + 1:] for n in ast.walk(st)} \
+        if cloop in mad.node.body else set()
+    hoisted = [c for c in walk_no_nested(mad.node) if isinstance(c, ast.Call) and call_name(c) in (VALIDATE, UPDATE)
+               and id(c) not in in_loop and id(c) not in after_loop]
+    for c in hoisted:
+        ctx.violation("R-PAIR", f"{mad.qualname}:outside-configuration-loop {call_name(c)}", mad.loc(c),
+                      f"`{norm_text(c)[:80]}` runs once, outside the loop over potential configurations: the plane it "
+                      "records is written for one configuration only (the others keep the allocated zeros, an "
+                      "ensemble mean is off by 1/N)", key_detail="hoisted")
+    entrance_arms = [a for a in arms if "[0]" in norm_text(a.test) and "-1" in norm_text(a.test)]
+    if not entrance_arms and not hoisted:
+        ctx.violation("R-PAIR", f"{mad.qualname}:entrance-plane", mad.loc(cloop),
+                      "no per-configuration handling of the entrance plane (exit_planes[0] == -1) was found inside the "
+                      "configuration loop", key_detail="entrance")
+    ctx.require(len(arms) >= 1, "multislice_and_detect: exit-plane arm not found")
     for arm in arms:
         counts = _count_paths(arm.body, lambda st: _is_increment(st, COUNTER))
         ctx.check(counts == {1}, "R-PAIR", f"{mad.qualname}:once-per-exit-plane `{norm_text(arm.test)[:40]}`",
@@ -147,7 +163,7 @@ def run(ctx) -> None:
     ploop_target = cloop.target.elts[0].id if isinstance(cloop.target, ast.Tuple) else None
     ctx.require(ploop_target is not None, "configuration loop target is not a tuple")
     vcalls = [c for c in ast.walk(cloop) if isinstance(c, ast.Call) and call_name(c) == VALIDATE]
-    ctx.require(len(vcalls) >= 2, "multislice_and_detect: index computations not found")
+    ctx.require(len(vcalls) >= 1, "multislice_and_detect: index computations not found")
     for c in vcalls:
         good = (len(c.args) >= 3 and dotted(c.args[0]) == ploop_target and dotted(c.args[1]) == COUNTER
                 and dotted(c.args[2]) == mad.positional_params[1])
@@ -156,7 +172,7 @@ def run(ctx) -> None:
                   f"`{norm_text(c)}` does not combine the configuration index with the exit-plane counter",
                   key_detail="vargs")
     ucalls = [c for c in ast.walk(cloop) if isinstance(c, ast.Call) and call_name(c) == UPDATE]
-    ctx.require(len(ucalls) >= 2, "multislice_and_detect: measurement updates not found")
+    ctx.require(len(ucalls) >= 1, "multislice_and_detect: measurement updates not found")
     for c in ucalls:
         ctx.require(len(c.args) >= 4, "unexpected _update_measurements signature use")
         idx = c.args[3]
